@@ -238,3 +238,8 @@ def gen_tier_level(rnd, tier):
 
 
 shrink = dispatch.shrink
+
+
+# living-object histories built from the step-wise cases above (harness/living.py)
+import living  # noqa: E402
+living.install(globals())
